@@ -57,7 +57,18 @@ def tables(rep):
             to = type(back[0]).__name__ if len(back) == 1 else f"{len(back)} AVPs"
         except BaseException as e:
             to = f"raised {type(e).__name__}"
-        dispatch.append({"name": d.name, "to": to})
+        dispatch.append({"name": d.name, "to": to, "want": d.name})
+        # the same code under a Vendor-ID for which nothing is defined: nobody's AVP, it stays generic
+        e0 = ref.get(d.name)
+        if e0:
+            for fv in (9, 193, 4294967295):
+                wire = e0["code"].to_bytes(4, "big") + bytes([0x80]) + (16).to_bytes(3, "big") + fv.to_bytes(4, "big") + b"\x00\x00\x00\x01"
+                try:
+                    back = DiameterAVP.load(wire)
+                    to = type(back[0]).__name__ if len(back) == 1 else f"{len(back)} AVPs"
+                except BaseException as ex:
+                    to = f"raised {type(ex).__name__}"
+                dispatch.append({"name": f"{d.name}'s code under the undefined vendor {fv}", "to": to, "want": "DiameterAVP", "foreign": fv})
         # the same (vendor, code) arriving with zero data octets: dispatched to the class (where the empty value
         # is in the type's domain) or rejected -- never handed back as some other / generic AVP
         e = ref.get(d.name)
@@ -71,7 +82,7 @@ def tables(rep):
                 to = type(back[0]).__name__ if len(back) == 1 else f"{len(back)} AVPs"
             except BaseException as ex:
                 to = d.name if not empty_ok else f"raised {type(ex).__name__}"
-            dispatch.append({"name": d.name, "to": to, "empty": True})
+            dispatch.append({"name": d.name, "to": to, "want": d.name, "empty": True})
     refrows = [{"name": n, "code": e["code"], "vendor": e["vendor"] if e["vendor"] is not None else -1,
                 "type": e["type"], "flags": e["flags"], "src": "ref"} for n, e in ref.items()]
     docs = []
@@ -99,7 +110,7 @@ def check_tables(rep):
     for name, err in inst_err:
         rep.violation(f"{name}: no instance can be built from an in-domain value: {err}", {"kind": "table", "cls": name})
     defs = (f"Tree == {rows_tla(tree)}\nRef == {rows_tla(ref)}\nDocs == {rows_tla(docs)}\nIana == {rows_tla(iana)}\n"
-            f"Disp == {rows_tla(dispatch, ('name', 'to'))}\n"
+            f"Disp == {rows_tla(dispatch, ('name', 'to', 'want'))}\n"
             "Out == [collisions |-> SetToSeq(Collisions(Tree)), vflag |-> SetToSeq(VFlagBad(Tree)), "
             "ref |-> SetToSeq(Disagree(Tree, Ref)), missing |-> SetToSeq(Missing(Ref, Tree)), "
             "docs |-> SetToSeq(DisagreeCodeType(Docs, Tree)), iana |-> SetToSeq(DisagreeCode(Iana, Tree)), "
@@ -116,7 +127,7 @@ def check_tables(rep):
     byiana = {r["name"]: r for r in iana}
     bydisp = {}
     for r in dispatch:
-        if r["name"] != r["to"] or r["name"] not in bydisp:
+        if r["want"] != r["to"] or r["name"] not in bydisp:
             bydisp[r["name"]] = r
     for pair in o["collisions"]:
         a, b = pair
@@ -136,8 +147,8 @@ def check_tables(rep):
     for n in o["iana"]:
         rep.violation(f"{n}: bromelia/definitions.py lists code {byiana[n]['code']}, the class has {bytree[n]['code']}", {"kind": "table", "cls": n, "table": "iana"})
     for n in o["dispatch"]:
-        rep.violation(f"{n}: decoding {'its (vendor, code) with zero data octets' if bydisp[n].get('empty') else 'a dumped instance'} "
-                      f"gives {bydisp[n]['to']}", {"kind": "table", "cls": n})
+        rep.violation(f"{n}: decoding {'its (vendor, code) with zero data octets' if bydisp[n].get('empty') else 'it' if bydisp[n].get('foreign') else 'a dumped instance'} "
+                      f"gives {bydisp[n]['to']}" + (" instead of a generic AVP" if bydisp[n].get("foreign") else ""), {"kind": "table", "cls": n})
     rep.case(("tables",), n=len(tree))
     rep.sample({"tree_row": tree[0], "docs_row": docs[0]})
 
